@@ -164,7 +164,9 @@ def _worker(arg):
         return idx, ctx.result()
     try:
         _MOD.run_block(block, ctx)
-    except Exception as e:  # noqa
+    except BaseException as e:  # noqa
+        if not isinstance(e, Exception) and type(e).__name__ != "NotDecided":
+            raise
         # an exception nobody in the check expected. Where was it raised?  Inside the tree under test: the code crashed where
         # the check relies on it to work - reported.  Inside /verif itself (a call that no longer fits a private function's
         # parameter list, a private attribute that is gone): the harness does not fit this tree - the block is NOT DECIDED
@@ -359,9 +361,17 @@ def run_check(pid: str, tier: str, seed: int) -> int:
           % (pid, tier, coverage["states"], coverage["transitions"], coverage["evaluations"],
              coverage["distinct_nontrivial"], coverage["distinct_outcomes"], exhaustive, wall,
              len(new_viol), len(known_hit)))
-    if new_viol or not ok:
+    if new_viol:
         return 1
-    if merged["evals"] == 0:
+    nothing = merged["evals"] == 0 or coverage["states"] == 0
+    if nothing and merged["capped"] and any("not decided" in n for n in merged["notes"]):
+        # every block ended "not decided": the harness does not fit this tree.  There is nothing to report about the
+        # property and nothing that could be called evidence (the file written above says so and does not validate).
+        print("NOT DECIDED: %s %s explored nothing on this tree - %s" % (pid, tier, merged["notes"][0][:300]), file=sys.stderr)
+        return 0
+    if not ok:
+        return 1
+    if nothing:
         print("ERROR: nothing explored", file=sys.stderr)
         return 1
     return 0
